@@ -6,7 +6,7 @@ no template variable has a value, holes stay holes.
 from __future__ import annotations
 
 import re
-from dataclasses import dataclass, field
+from dataclasses import dataclass, field, replace
 from typing import Any
 
 from jinja2 import nodes
@@ -22,10 +22,12 @@ IDENT_RE = re.compile(r"[^\W\d]\w*", re.UNICODE)
 
 @dataclass(frozen=True)
 class Item:
-    kind: str            # t (text) | n (name hole) | o (opaque value)
+    kind: str            # t (text) | n (name hole) | o (opaque value) | a (alternatives: exactly one of `alts` stands here)
     text: str = ""
     idents: frozenset[str] = frozenset()   # identifiers an opaque value may read (type strings ...)
     site: str = ""                         # template::macro in which the hole is written
+    alts: tuple = ()                       # kind a: the alternative texts (tuple[Sym, ...])
+    uid: int = 0                           # kind a: occurrences of one decision (same uid) take the same alternative
 
 
 Sym = tuple  # tuple[Item, ...]
@@ -36,6 +38,11 @@ def T(s: str) -> Sym:
 
 
 class SkelWalker:
+    # A template module imported (or a macro defined) inside a branch of a non-constant `if` and called after the `if`: when False the
+    # call stays opaque, as it always was (the one such call, the additional-properties `construct` of model.py.jinja's from_dict, is
+    # listed as not decided by C18); when True it is inlined, which reports two more sites of the known from_dict collisions.
+    IMPORTS_SURVIVE_IF = False
+
     def __init__(self, jx: JinjaIndex, type_idents: frozenset[str], max_depth: int = 1):
         self.jx = jx
         self.type_idents = type_idents
@@ -46,6 +53,9 @@ class SkelWalker:
         self.stack: list[tuple[str, str]] = []
         self.truncated = 0
         self.unknown_calls: dict[str, int] = {}
+        self._uid = 0
+        self._caller: list[Sym] = []   # texts of the enclosing `{% call %}` blocks (innermost last)
+        self._module_envs: dict[str, dict[str, Any]] = {}
 
     # ---- public --------------------------------------------------------------------------------------------------
     def walk_template(self, name: str) -> list[Item]:
@@ -83,31 +93,78 @@ class SkelWalker:
                 if n.else_:
                     self.block(n.else_, env, tname)
                 return
+            # an `if` is no scope in Jinja: what a branch binds (`set`, `set` block, import) is bound after the `if` on the paths
+            # through that branch; on the other paths the earlier binding stays
+            ends: list[dict[str, Any]] = []
+            pieces: list[Sym] = []
+
+            def branch(body: list[nodes.Node]) -> None:
+                ends.append(dict(env))
+                start = len(self.out)
+                self.block(body, ends[-1], tname)
+                pieces.append(tuple(self.out[start:]))
+                del self.out[start:]
+
             if const is not False:
-                self.block(n.body, dict(env), tname)
+                branch(n.body)
             for el in n.elif_:
-                self._sep()
-                self.block(el.body, dict(env), tname)
+                branch(el.body)
+            if n.else_:
+                branch(n.else_)
+            else:
+                ends.append(dict(env))
+                pieces.append(())
+            if not any(self._has_newline(p) for p in pieces):
+                # an `if` within one generated line: exactly one of the pieces stands in that line
+                self.out.extend(self.alt(pieces))
+            else:
+                for k, p in enumerate(pieces):
+                    if k and (p or k < len(pieces) - 1 or n.else_):
+                        self._sep()
+                    self.out.extend(p)
+            self._merge(env, ends)
+            return
+        if isinstance(n, nodes.For):
+            it = self.as_list(n.iter, env, tname)
+            if it is not None:
+                # a list the template builds itself (literal items, `map(attribute=...)`, concatenations): one round per item
+                for s, many in it[1]:
+                    for _ in range((2 if len(self.stack) <= 1 else 1) if many else 1):
+                        e2 = dict(env)
+                        if isinstance(n.target, nodes.Name):
+                            e2[n.target.name] = s
+                        else:
+                            self._bind_target(n.target, n.iter, e2)
+                        self.block(n.body, e2, tname)
+            else:
+                for _ in range(2 if len(self.stack) <= 1 else 1):
+                    e2 = dict(env)
+                    self._bind_target(n.target, n.iter, e2)
+                    self.block(n.body, e2, tname)
             if n.else_:
                 self._sep()
                 self.block(n.else_, dict(env), tname)
-            # `set`s inside branches: keep the last binding of each (over-approximation is in the events, not the env)
-            for sub in n.find_all(nodes.Assign):
-                if isinstance(sub.target, nodes.Name) and sub.target.name not in env:
-                    env[sub.target.name] = self.sym(sub.node, env, tname)
-            return
-        if isinstance(n, nodes.For):
-            for _ in range(2 if len(self.stack) <= 1 else 1):
-                e2 = dict(env)
-                self._bind_target(n.target, n.iter, e2)
-                self.block(n.body, e2, tname)
             return
         if isinstance(n, nodes.Macro):
             env[n.name] = ("macros", [(tname, n.name)])
             return
         if isinstance(n, nodes.Assign):
             if isinstance(n.target, nodes.Name):
-                env[n.target.name] = self.sym(n.node, env, tname)
+                env[n.target.name] = self.val(n.node, env, tname)
+            return
+        if isinstance(n, nodes.AssignBlock):
+            # `{% set x %}...{% endset %}` prints nothing where it stands: the text is captured and stands wherever x is printed
+            saved = self.out
+            self.out = []
+            try:
+                self.block(n.body, dict(env), tname)
+                res: Sym = tuple(self.out)
+            finally:
+                self.out = saved
+            if n.filter is not None:
+                res = self._filtered(n.filter, res, env, tname)
+            if isinstance(n.target, nodes.Name):
+                env[n.target.name] = res
             return
         if isinstance(n, nodes.Import):
             env[n.target] = ("tplmods", self._template_names(n.template))
@@ -125,9 +182,91 @@ class SkelWalker:
             return
         if isinstance(n, (nodes.ExprStmt, nodes.Continue, nodes.Break)):
             return
-        if isinstance(n, (nodes.With, nodes.Scope, nodes.CallBlock, nodes.FilterBlock, nodes.AssignBlock)):
+        if isinstance(n, (nodes.FilterBlock, nodes.CallBlock)):
+            # `{% filter f %}...{% endfilter %}` prints its text through f; `{% call m(...) %}...{% endcall %}` prints m(...), in
+            # which `caller()` stands for the text
+            saved = self.out
+            self.out = []
+            try:
+                self.block(n.body, dict(env), tname)
+                res = tuple(self.out)
+            finally:
+                self.out = saved
+            if isinstance(n, nodes.FilterBlock):
+                self.out.extend(self._filtered(n.filter, res, env, tname))
+            else:
+                self._caller.append(res)
+                try:
+                    self.out.extend(self.sym(n.call, env, tname))
+                finally:
+                    self._caller.pop()
+            return
+        if isinstance(n, nodes.With):
+            e2 = dict(env)
+            for t, v in zip(n.targets, n.values):
+                if isinstance(t, nodes.Name):
+                    e2[t.name] = self.val(v, env, tname)
+            self.block(n.body, e2, tname)
+            return
+        if isinstance(n, (nodes.Scope, nodes.Block)):
             self.block(getattr(n, "body", []), dict(env), tname)
             return
+
+    def _merge(self, env: dict[str, Any], ends: list[dict[str, Any]]) -> None:
+        """Bindings after an `if`, from the bindings at the end of each of its paths (`ends`, one per branch, in order)."""
+        names: list[str] = []
+        for e in ends:
+            for k, v in e.items():
+                if (k not in env or env[k] is not v) and k not in names:
+                    names.append(k)
+        for k in names:
+            vals: list[Any] = []
+            for e in ends:
+                v = e.get(k)
+                if v is not None and not any(v is w or v == w for w in vals):
+                    vals.append(v)
+            kinds = {self._kind(v) for v in vals}
+            if kinds & {"macros", "tplmods"} and not self.IMPORTS_SURVIVE_IF:
+                continue
+            if len(kinds) > 1 and kinds & {"macros", "tplmods"}:
+                # a macro / template module on some paths, a plain value (`none`) on others: what can be called is what matters
+                vals = [v for v in vals if self._kind(v) in ("macros", "tplmods")]
+                kinds = {self._kind(v) for v in vals}
+            if len(vals) == 1 or len(kinds) > 1:
+                env[k] = vals[-1]
+            elif kinds == {"sym"}:
+                env[k] = self.alt(vals)
+            elif kinds <= {"macros", "tplmods"}:
+                kind = next(iter(kinds))
+                targets: list[Any] = []
+                for v in vals:
+                    targets += [t for t in v[1] if t not in targets]
+                env[k] = (kind, targets)
+            elif kinds == {"list"}:
+                env[k] = ("list", tuple(x for v in vals for x in v[1]))
+            else:
+                env[k] = vals[-1]
+
+    @staticmethod
+    def _has_newline(s: Sym) -> bool:
+        return any((it.kind == "t" and "\n" in it.text) or any(SkelWalker._has_newline(a) for a in it.alts) for it in s)
+
+    @staticmethod
+    def _kind(v: Any) -> str:
+        if isinstance(v, tuple) and v and isinstance(v[0], str):
+            return v[0]
+        return "sym"
+
+    def alt(self, alts: list[Sym]) -> Sym:
+        """exactly one of the alternatives stands here"""
+        uniq: list[Sym] = []
+        for a in alts:
+            if a not in uniq:
+                uniq.append(a)
+        if len(uniq) == 1:
+            return uniq[0]
+        self._uid += 1
+        return (Item("a", alts=tuple(uniq), uid=self._uid),)
 
     @staticmethod
     def _const_test(test: nodes.Node, env: dict[str, Any]) -> "bool | None":
@@ -194,6 +333,13 @@ class SkelWalker:
                 site = f"{tname}::{self.stack[-1][1] if self.stack and self.stack[-1][0] == tname else '<top>'}"
                 return (Item("n", self.root_of(e, env), frozenset(), site),)
             return (Item("o", self.root_of(e, env)),)
+        if isinstance(e, nodes.Getitem) and isinstance(e.arg, nodes.Const) and e.arg.value in NAME_ATTRS:
+            return (Item("n", f"{self.root_of(e.node, env)}.{e.arg.value}", frozenset(), self._site(tname)),)
+        if isinstance(e, nodes.Mod) and isinstance(e.left, nodes.Const) and isinstance(e.left.value, str):
+            args = list(e.right.items) if isinstance(e.right, nodes.Tuple) else [e.right]
+            got = self._formatted(e.left.value.split("%s"), args, env, tname)
+            if got is not None:
+                return got
         if isinstance(e, (nodes.Add, nodes.Concat)):
             parts = [e.left, e.right] if isinstance(e, nodes.Add) else list(e.nodes)
             out: Sym = ()
@@ -201,24 +347,121 @@ class SkelWalker:
                 out += self.sym(p, env, tname)
             return out
         if isinstance(e, nodes.CondExpr):
-            a = self.sym(e.expr1, env, tname)
-            b = self.sym(e.expr2, env, tname) if e.expr2 is not None else ()
-            return a + T(" ") + b if b else a
+            # `A if T else B` printed in a line gives one of two lines (never A and B side by side)
+            const = self._const_test(e.test, env)
+            if const is True:
+                return self.sym(e.expr1, env, tname)
+            if const is False:
+                return self.sym(e.expr2, env, tname) if e.expr2 is not None else ()
+            return self.alt([self.sym(e.expr1, env, tname), self.sym(e.expr2, env, tname) if e.expr2 is not None else ()])
         if isinstance(e, nodes.Filter):
+            if e.name == "join":
+                lst = self.as_list(e.node, env, tname) if e.node is not None else None
+                if lst is not None:
+                    sep = self.sym(e.args[0], env, tname) if e.args else ()
+                    out2: Sym = ()
+                    for s, many in lst[1]:
+                        for _ in range(2 if many else 1):
+                            out2 += (sep if out2 else ()) + s
+                    return out2
             base = self.sym(e.node, env, tname) if e.node is not None else ()
-            if e.name == "indent":
-                width = 4
-                if e.args and isinstance(e.args[0], nodes.Const):
-                    width = int(e.args[0].value)
-                return self._indent(base, width)
-            if e.name in ("trim", "wordwrap", "safe", "string", "upper", "lower"):
-                return base
-            if e.name in ("length", "count"):
-                return (Item("o", expr_text(e)),)
-            return (Item("o", expr_text(e), self._idents_of(base)),)
+            return self._filtered(e, base, env, tname)
         if isinstance(e, nodes.Call):
             return self.call(e, env, tname)
         return (Item("o", expr_text(e)),)
+
+    def _formatted(self, pieces: list[str], args: list[nodes.Node], env: dict[str, Any], tname: str) -> "Sym | None":
+        """literal pieces with one argument printed between each two of them (`"{}_x".format(a)`, `"%s_x" % a`, `"%s_x" | format(a)`)"""
+        if len(pieces) != len(args) + 1 or any("{" in p or "%" in p for p in pieces):
+            return None
+        out: Sym = T(pieces[0])
+        for a, p in zip(args, pieces[1:]):
+            out += self.sym(a, env, tname) + T(p)
+        return out
+
+    def _filtered(self, e: nodes.Filter, base: Sym, env: dict[str, Any], tname: str) -> Sym:
+        """the text `base` passed through the filter e"""
+        if e.name == "format" and len(base) == 1 and base[0].kind == "t" and not e.kwargs:
+            got = self._formatted(base[0].text.split("%s"), list(e.args), env, tname)
+            if got is not None:
+                return got
+        if e.name == "indent":
+            width = 4
+            kw = {k.key: k.value for k in e.kwargs}
+            w_, first = (e.args[0] if e.args else kw.get("width")), (e.args[1] if len(e.args) > 1 else kw.get("first"))
+            if isinstance(w_, nodes.Const) and isinstance(w_.value, int):
+                width = w_.value
+            out = self._indent(base, width)
+            if isinstance(first, nodes.Const) and first.value:
+                out = T(" " * width) + out
+            return out
+        if e.name in ("trim", "wordwrap", "safe", "string", "upper", "lower"):
+            return base
+        if e.name in ("length", "count"):
+            return (Item("o", expr_text(e)),)
+        return (Item("o", expr_text(e), self._idents_of(base)),)
+
+    # ---- lists the template builds itself ----------------------------------------------------------------------------------
+    # ("list", ((Sym, many), ...)): the printable text of each item in order; `many`: the item stands for any number of items
+    _SAME_ITEMS = ("list", "unique", "select", "reject", "selectattr", "rejectattr")
+    _REORDER = ("sort", "reverse")
+
+    def val(self, e: nodes.Node, env: dict[str, Any], tname: str) -> Any:
+        lst = self.as_list(e, env, tname)
+        return lst if lst is not None else self.sym(e, env, tname)
+
+    def _items_of(self, e: nodes.Node, env: dict[str, Any], tname: str) -> tuple:
+        lst = self.as_list(e, env, tname)
+        if lst is not None:
+            return lst[1]
+        return (((Item("o", self.root_of(e, env) + "[*]"),), True),)
+
+    def _site(self, tname: str) -> str:
+        return f"{tname}::{self.stack[-1][1] if self.stack and self.stack[-1][0] == tname else '<top>'}"
+
+    def _attr_of(self, root: str, attr: str, tname: str) -> Sym:
+        if attr in NAME_ATTRS:
+            return (Item("n", f"{root}.{attr}", frozenset(), self._site(tname)),)
+        return (Item("o", f"{root}.{attr}"),)
+
+    def as_list(self, e: nodes.Node, env: dict[str, Any], tname: str) -> "tuple | None":
+        """The list value of e when the template spells out what its items print as (None: an opaque iterable)."""
+        if isinstance(e, (nodes.List, nodes.Tuple)):
+            return ("list", tuple((self.sym(x, env, tname), False) for x in e.items))
+        if isinstance(e, nodes.Name):
+            v = env.get(e.name)
+            return v if isinstance(v, tuple) and len(v) == 2 and v[0] == "list" else None
+        if isinstance(e, nodes.Add):
+            if self.as_list(e.left, env, tname) is None and self.as_list(e.right, env, tname) is None:
+                return None
+            return ("list", self._items_of(e.left, env, tname) + self._items_of(e.right, env, tname))
+        if isinstance(e, nodes.CondExpr):
+            const = self._const_test(e.test, env)
+            arms = [x for x, take in ((e.expr1, const is not False), (e.expr2, const is not True)) if take and x is not None]
+            if all(self.as_list(x, env, tname) is None for x in arms):
+                return None
+            # (either list: its items may follow the other's in a later round of an enclosing loop - laid out in sequence)
+            return ("list", tuple(it for x in arms for it in self._items_of(x, env, tname)))
+        if isinstance(e, nodes.Filter) and e.node is not None:
+            if e.name == "map":
+                attr = next((k.value.value for k in e.kwargs if k.key == "attribute" and isinstance(k.value, nodes.Const)), None)
+                if not isinstance(attr, str) or e.args:
+                    return None
+                out = []
+                for s, many in self._items_of(e.node, env, tname):
+                    if len(s) == 1 and s[0].kind == "o":
+                        out.append((self._attr_of(s[0].text, attr, tname), many))
+                    else:
+                        out.append(((Item("o", f"{expr_text(e)}", self._idents_of(s)),), many))
+                return ("list", tuple(out))
+            if e.name in self._SAME_ITEMS:
+                return self.as_list(e.node, env, tname)
+            if e.name in self._REORDER:
+                lst = self.as_list(e.node, env, tname)
+                if lst is not None and len(lst[1]) > 1:
+                    return ("list", lst[1] + lst[1])  # any order: each item may come after each other one
+                return lst
+        return None
 
     def root_of(self, e: nodes.Node, env: dict[str, Any]) -> str:
         """expression text with macro parameters / `set` aliases replaced by what they were bound to at the call site"""
@@ -240,6 +483,8 @@ class SkelWalker:
         out: set[str] = set()
         for it in s:
             out |= it.idents
+            for a in it.alts:
+                out |= SkelWalker._idents_of(a)
         return frozenset(out)
 
     @staticmethod
@@ -249,6 +494,8 @@ class SkelWalker:
         for it in s:
             if it.kind == "t" and "\n" in it.text:
                 out.append(Item("t", it.text.replace("\n", "\n" + pad)))
+            elif it.kind == "a":
+                out.append(replace(it, alts=tuple(SkelWalker._indent(a, width) for a in it.alts)))
             else:
                 out.append(it)
         return tuple(out)
@@ -256,6 +503,13 @@ class SkelWalker:
     def call(self, e: nodes.Call, env: dict[str, Any], tname: str) -> Sym:
         fn = e.node
         targets: list[tuple[str, str]] = []
+        if isinstance(fn, nodes.Name) and fn.name == "caller" and self._caller and "caller" not in env:
+            return self._caller[-1]
+        if isinstance(fn, nodes.Getattr) and fn.attr == "format" and isinstance(fn.node, nodes.Const) and isinstance(fn.node.value, str) \
+                and not e.kwargs and not e.dyn_args and not e.dyn_kwargs:
+            got = self._formatted(re.split(r"\{\d*\}", fn.node.value), e.args, env, tname)
+            if got is not None:
+                return got
         if isinstance(fn, nodes.Name):
             v = env.get(fn.name)
             if isinstance(v, tuple) and v and v[0] == "macros":
@@ -294,12 +548,7 @@ class SkelWalker:
             self.truncated += 1
             return (Item("o", f"<{tn}::{mn}>"),)
         m = self.jx.templates[tn].macros[mn]
-        ti = self.jx.templates[tn]
-        e2: dict[str, Any] = {}
-        self._bind_toplevel(ti, e2)
-        for n in ti.tree.body:
-            if isinstance(n, (nodes.FromImport, nodes.Import)):
-                self.stmt(n, e2, tn)
+        e2 = dict(self._module_env(tn))
         names = [a.name for a in m.args]
         nd = len(m.defaults)
         for i, a in enumerate(m.args):
@@ -323,10 +572,31 @@ class SkelWalker:
             self.out = saved
         return res
 
+    def _module_env(self, tn: str) -> dict[str, Any]:
+        """What a macro of template tn sees besides its parameters: the template's macros, its imports and its top-level `set`
+        variables (a macro reads them like any global; the value is taken at the end of the template)."""
+        got = self._module_envs.get(tn)
+        if got is not None:
+            return got
+        ti = self.jx.templates[tn]
+        e2: dict[str, Any] = {}
+        self._module_envs[tn] = e2  # (a top-level `set` that calls a macro of the same template sees what is bound so far)
+        self._bind_toplevel(ti, e2)
+        saved, self.out = self.out, []
+        saved_stack, self.stack = self.stack, [(tn, "<top>")]
+        try:
+            for n in ti.tree.body:
+                if isinstance(n, (nodes.FromImport, nodes.Import, nodes.Assign, nodes.AssignBlock)):
+                    self.stmt(n, e2, tn)
+        finally:
+            self.out = saved
+            self.stack = saved_stack
+        return e2
+
     def _arg(self, a: nodes.Node, env: dict[str, Any], tname: str) -> Any:
         if isinstance(a, nodes.Name):
             v = env.get(a.name)
-            if isinstance(v, tuple) and v and v[0] in ("macros", "tplmods", "obj"):
+            if isinstance(v, tuple) and v and v[0] in ("macros", "tplmods", "obj", "list"):
                 return v
             if v is None:
                 return ("obj", a.name)
@@ -341,12 +611,89 @@ class SkelWalker:
 from .skelscan import Event, Scope, scan_lines  # noqa: E402
 
 
-def to_lines(items: list[Item]) -> tuple[list[str], list[frozenset[str]], list[tuple[str, str]]]:
-    """Virtual source: name holes become placeholder identifiers, opaque values an expression placeholder."""
+VARIANT = "\ue002"  # first character of a line that is an alternative of the line before it
+ALT_CAP = 24  # variants of one generated line that are laid out; beyond it the alternatives stand side by side
+
+
+class _TooMany(Exception):
+    pass
+
+
+def _variants(sym: Sym, choice: dict[int, int]) -> list[tuple[list[Item], dict[int, int]]]:
+    """The texts `sym` can stand for, free of alternatives, each with the decisions taken for it (one decision - `uid` - is taken
+    the same way wherever it occurs in the line)."""
+    results: list[tuple[list[Item], dict[int, int]]] = [([], choice)]
+    for it in sym:
+        if it.kind != "a":
+            for items, _ch in results:
+                items.append(it)
+            continue
+        new: list[tuple[list[Item], dict[int, int]]] = []
+        for items, ch in results:
+            for k in ([ch[it.uid]] if it.uid in ch else range(len(it.alts))):
+                for sub, ch3 in _variants(it.alts[k], {**ch, it.uid: k}):
+                    new.append((items + sub, ch3))
+        if len(new) > ALT_CAP:
+            raise _TooMany
+        results = new
+    return results
+
+
+def _side_by_side(sym: Sym) -> list[Item]:
+    out: list[Item] = []
+    for it in sym:
+        if it.kind != "a":
+            out.append(it)
+            continue
+        for k, a in enumerate(it.alts):
+            if k:
+                out.append(Item("t", " "))
+            out.extend(_side_by_side(a))
+    return out
+
+
+def resolve_alternatives(items: list[Item]) -> list[Item]:
+    """A generated line in which alternatives stand (a conditional expression, a variable bound differently on different paths) is
+    laid out once per alternative, one line after the other - as the branches of a block `if` are."""
+    out: list[Item] = []
+    line: list[Item] = []
+
+    def close() -> None:
+        if any(it.kind == "a" for it in line):
+            try:
+                vs = [v for v, _ in _variants(tuple(line), {})]
+            except _TooMany:
+                vs = [_side_by_side(tuple(line))]
+            # alternatives exclude each other: what one of them binds is not bound when another one is evaluated. For statements
+            # of one line the scanner is told so (VARIANT: the line is an alternative of the line before it)
+            one_line = not any(it.kind == "t" and "\n" in it.text for v in vs for it in v)
+            for k, v in enumerate(vs):
+                if k:
+                    out.append(Item("t", "\n" + (VARIANT if one_line else "")))
+                out.extend(v)
+        else:
+            out.extend(line)
+        line.clear()
+
+    for it in items:
+        if it.kind == "t" and "\n" in it.text:
+            parts = it.text.split("\n")
+            line.append(Item("t", parts[0]))
+            for p in parts[1:]:
+                close()
+                out.append(Item("t", "\n"))
+                line.append(Item("t", p))
+        else:
+            line.append(it)
+    close()
+    return out
+
+
+def _lines(items: list[Item]) -> tuple[list[str], list[frozenset[str]], list[tuple[str, str]]]:
     buf: list[str] = []
     opq: list[frozenset[str]] = []
     holes: list[tuple[str, str]] = []
-    for it in items:
+    for it in resolve_alternatives(items):
         if it.kind == "t":
             buf.append(it.text)
         elif it.kind == "n":
@@ -358,6 +705,13 @@ def to_lines(items: list[Item]) -> tuple[list[str], list[frozenset[str]], list[t
     return "".join(buf).split("\n"), opq, holes
 
 
+def to_lines(items: list[Item]) -> tuple[list[str], list[frozenset[str]], list[tuple[str, str]]]:
+    """Virtual source: name holes become placeholder identifiers, opaque values an expression placeholder; a line in which
+    alternatives stand is written once per alternative."""
+    lines, opq, holes = _lines(items)
+    return [x.lstrip(VARIANT) for x in lines], opq, holes
+
+
 def scan(items: list[Item], template: str) -> Scope:
-    lines, opq, holes = to_lines(items)
+    lines, opq, holes = _lines(items)  # (alternatives of a line keep their VARIANT mark: `scan_lines` reads and removes it)
     return scan_lines(lines, opq, holes, template)
